@@ -48,13 +48,13 @@ PROPS = {
     'C11': P([disc('mem', profile='release')], profiles=['release'], tb=['counting #[global_allocator] in the harness process (live bytes around one structure\'s lifetime; default SipHash hasher and a non-logging RNG so that only the crate\'s allocations are counted)', 'modelled, not verified: Vec growth policy, HashMap/BTreeSet node overhead, fixedbitset (u32 blocks), succinct::IntVector (u64 blocks)'], assumptions=['bounds for Vec/HashMap/BTree based structures allow a factor 2 plus 2 KiB for std\'s growth policy and per-node overhead']),
     'C07': P([c07_rates, disc('sizing', 'bloom', 'cuckoo', 'qf')], profiles=['debug', 'release'], tb=['sizing constructors and BloomFilter::len(): generic model run with OCaml native binary64 and libm log/log2/ceil; Rust next_power_of_two modelled as 2^log2_up'], assumptions=['the MEASURED Bloom rate under double hashing, len() accuracy and "n distinct inserts never report Full" (false for adversarial hashers) are statistical sentences: NOT proved, searched only after a break; the cuckoo and quotient-filter false-positive COUNTING bounds are proved', 'known finding: with_properties_4/_8 panic when the rate needs a fingerprint of more than 64 bits']),
     'C08': P([c08_measure, disc('sizing', 'cms')], profiles=['debug', 'release'], tb=['sizing: generic model run with OCaml native binary64 and libm log/ceil'], assumptions=['the (eps, delta) guarantee is probabilistic over hash seeds: NOT proved; refuted for small delta by the double-hashing floor (known finding, re-measured on every run)']),
-    'C03': P([hll_accuracy, disc('hllc', 'hll')], tb=['translator tools/hlldata.py (regex over decimal literals of data.rs and the constants of am()/count() in mod.rs -> Gen/HllData.v, regenerated every run)', 'count(): generic model run with OCaml native binary64 and libm log (same glibc as the crate); modelled std: slice::binary_search_by as implemented in the installed toolchain'], assumptions=['the sentence about RMS / mean / 3-sigma tail of the relative error over hash seeds is NOT proved (bias rows are empirical); it is searched statistically only after a proof or correspondence break', 'glibc log agrees between OCaml and Rust']),
+    'C03': P([hll_accuracy, disc('hllc', 'hll')], tb=['axioms (standard library, via Reals) of the real-arithmetic theorems of this property: ClassicalDedekindReals.sig_forall_dec, ClassicalDedekindReals.sig_not_dec, FunctionalExtensionality.functional_extensionality_dep, Classical_Prop.classic; all other theorems are closed under the global context', 'translator tools/hlldata.py (regex over decimal literals of data.rs and the constants of am()/count() in mod.rs -> Gen/HllData.v, regenerated every run)', 'count(): generic model run with OCaml native binary64 and libm log (same glibc as the crate); modelled std: slice::binary_search_by as implemented in the installed toolchain'], assumptions=['the sentence about RMS / mean / 3-sigma tail of the relative error over hash seeds is NOT proved (bias rows are empirical); it is searched statistically only after a proof or correspondence break', 'glibc log agrees between OCaml and Rust']),
     'C20': P([disc('hser')], tb=['serde/serde_json are modelled: a document is a list of (field, value); JSON syntax and numeric typing are serde_json\'s']),
     'C05': P([res_exhaustive, disc('res')], assumptions=['rand 0.8.8 gen_range / gen_range(0.0..1.0) are modelled from source; that a PRNG delivers uniform words is an assumption (given uniform words, gen_range is exactly uniform on accepted words: lemma lemire_accept_iff)', 'beyond n = 4k+1 the size of the bias of gap sampling (constant p during a gap) is NOT bounded by a theorem; the gap law itself is proved']),
     'C10': P([disc('heap')]),
     'C16': P([disc('td')], tb=['t-digest: theorems are over the exact-rational (Q) instance of the generic model; the correspondence runs the same generic model with OCaml native binary64 arithmetic (arith record in ocaml/driver.ml) and the scale-function limits f_inv(f(q0,n)+1,n) logged from the crate\'s own ScaleFunction calls; IEEE rounding is the gap between the two instances'], assumptions=['floating-point accumulation error is outside the theorems (the property allows it); the oracle compares with n*4 ulp relative tolerance']),
     'C15': P([disc('td')], tb=['t-digest: theorems over the Q instance; float instance replayed bit-exactly against the crate'], assumptions=['ulp-level effects (a fused mean exceeding max by an ulp) are outside the exact-arithmetic theorems; the oracle allows 16 ulp of the data range scaled by total/smallest weight, as the property does']),
-    'C04': P([disc('td')], tb=['t-digest: theorems over the Q instance; float instance replayed bit-exactly against the crate'], assumptions=['rank accuracy across repeated merges is an empirical claim about input families and is NOT proved; size bound proved for K0 and for any scale function satisfying the abstract limit hypothesis']),
+    'C04': P([disc('td')], tb=['axioms (standard library, via Reals) of the real-arithmetic theorems of this property: ClassicalDedekindReals.sig_forall_dec, ClassicalDedekindReals.sig_not_dec, FunctionalExtensionality.functional_extensionality_dep, Classical_Prop.classic; all other theorems are closed under the global context', 't-digest: theorems over the Q instance; float instance replayed bit-exactly against the crate'], assumptions=['rank accuracy across repeated merges is an empirical claim about input families and is NOT proved; size bound proved for K0 and for any scale function satisfying the abstract limit hypothesis']),
     'C01': P([disc('bloom', 'cuckoo', 'qf', 'hset')]),
     'C06': P([disc('bloom', 'cms', 'hll', 'cuckoo', 'qf')]),
     'C12': P([disc('cuckoo', 'qf')]),
